@@ -34,6 +34,14 @@ def run(cx):
         ob.floor(kids, 1, "async block inside handle_incoming_task", exact=True)
         b = kids[0]
 
+        # (the one-line accessors ActivePeers::len / ActivePeersInner::len are always inlined: the size of the peer map is
+        #  `self.inner().connections.len()` - read guard, then HashMap::len of the direction-agnostic map)
+        def is_len_term(t):
+            return any(x[0] == "call" and name_matches(x[1], "HashMap::len") and mentions_field(x, "connections") and term_has_call(x, f"{CM}::ActivePeers::inner") for x in walk(t))
+
+        def is_len_call(c, o):
+            return name_matches(c.fn, "HashMap::len") and mentions_field(o.of_operand(c.args[0]), "connections") and term_has_call(o.of_operand(c.args[0]), f"{CM}::ActivePeers::inner")
+
         def call_sym(c, o):
             aw = await_target(c)
             if aw is not None:
@@ -51,7 +59,7 @@ def run(cx):
                 return "lookup"
             if name_matches(c.fn, "anemo::config::Config::max_concurrent_connections"):
                 return "limit?"
-            if name_matches(c.fn, f"{CM}::ActivePeers::len"):
+            if is_len_call(c, o):
                 return "len"
             if name_matches(c.fn, "FromResidual::from_residual") and c.dest == 0:
                 return None
@@ -80,8 +88,8 @@ def run(cx):
                 n = normalize_cmp(subj)
                 if n is not None:
                     neg, op, x, y = n
-                    xl = term_has_call(x, f"{CM}::ActivePeers::len")
-                    yl = term_has_call(y, f"{CM}::ActivePeers::len")
+                    xl = is_len_term(x)
+                    yl = is_len_term(y)
                     xm = term_has_call(x, "Config::max_concurrent_connections")
                     ym = term_has_call(y, "Config::max_concurrent_connections")
                     if (xl and ym) or (xm and yl):
@@ -145,17 +153,11 @@ def run(cx):
             ok = r_ is not u and r_[0] == "call" and name_matches(r_[1], "Future::poll")        # the Ok payload of `connecting.await`
         ob.require(ok, "lookup-key", f"known-peer lookup key is {show(t)}", b.path, b.loc(gs[0].bb))
         ob.require(mentions_upvar(arg_origin(gs[0], 0, o), "known_peers"), "lookup-map", "lookup not on the task's known_peers", b.path)
-        ls = calls_with_closures(prog, b, f"{CM}::ActivePeers::len")         # also inside `limit.is_some_and(|l| .. len() ..)`
-        ob.floor(ls, 1, "ActivePeers::len in admission", exact=True)
+        ls = [(c_, g_) for c_, g_ in calls_with_closures(prog, b, "HashMap::len") if mentions_field(g_(0), "connections") and term_has_call(g_(0), f"{CM}::ActivePeers::inner")]
+        ob.floor(ls, 1, "size of the peer map (inner().connections.len()) read in admission", exact=True)
         ob.require(mentions_upvar(ls[0][1](0), "active_peers") or mentions_param(ls[0][1](0), "active_peers"), "len-map", f"len() not on the task's active_peers ({show(ls[0][1](0))[:60]})", b.path)
         ms = b.calls_to("anemo::config::Config::max_concurrent_connections")
         ob.require(len(ms) == 1 and mentions_upvar(arg_origin(ms[0], 0, o), "config"), "limit-config", "limit not read from the task's config", b.path)
-        # ActivePeers::len -> inner().len() -> connections.len()
-        lb = cx.body(f"{CM}::ActivePeers::len")
-        t = Origins(lb).of_local(0)
-        # (ActivePeersInner::len, a one-line accessor, is always inlined: the wrapper reads connections.len() under the read guard)
-        ob.require(t[0] == "call" and name_matches(t[1], "HashMap::len") and mentions_field(t, "connections") and term_has_call(t, f"{CM}::ActivePeers::inner"),
-                   "len/wrapper", f"ActivePeers::len returns {show(t)}", lb.path)
         # KnownPeers::get = map.get(peer_id).cloned()
         kb = cx.body(f"{CM}::KnownPeers::get")
         t = Origins(kb).of_local(0)
@@ -186,5 +188,5 @@ def run(cx):
         ob.require(term_has_call(a0, "anemo::config::Config::connect_timeout"), "timeout/duration", f"timeout duration is {show(a0)}", task.path)
         ob.require(a1[0] == "agg" and a1[1] == "coroutine" and a1[2] == b.path, "timeout/future", f"timeout future is {show(a1)}", task.path)
         check_ms_getter(ob, prog, "anemo::config::Config::connect_timeout", "connect_timeout_ms")
-        check_callers(ob, prog, TASK, [f"{CM}::ConnectionManager::handle_incoming"], exact=1, what="handle_incoming_task")
-        check_callers(ob, prog, f"{CM}::ConnectionManager::handle_incoming", [f"{CM}::ConnectionManager::start"], exact=1, what="handle_incoming")
+        # (the forwarder handle_incoming is always inlined into the accept arm of the manager loop)
+        check_callers(ob, prog, TASK, [f"{CM}::ConnectionManager::start"], exact=1, what="handle_incoming_task")
